@@ -12,10 +12,12 @@
 -/
 import SkyllhModel.Model.Cache
 import SkyllhModel.Proofs.Cache
+import SkyllhModel.Model.CacheTop
+import SkyllhModel.Proofs.CacheTop
 import SkyllhModel.Generated.C06
 import Mathlib.Tactic
 
-open Cache C06
+open Cache C06 CacheTop
 
 set_option linter.unusedSectionVars false
 
@@ -383,6 +385,120 @@ theorem c06_datafield_counterexample :
     let st := (fieldRun f false (fieldFresh 1 0) [.compute 2, .changeSource 5]).1
     (fieldCalc f st 2).2 = 201 ∧ f st.data st.src 2 = 251 := by decide
 
+/-! ### the layers above the PDF ratio: split cascade, source-weighted ratio, log-lambda, second derivative number -/
+
+section top
+variable {D S F : Type} [DecidableEq F] [Add F] [Sub F] [Mul F] [Div F] [Neg F] [LT F] [DecidableLT F]
+  [OfNat F 0] [OfNat F 1] [OfScientific F] [Transc F]
+
+/-- general form of the refinement, for the induction -/
+theorem C06.top_run (T : Top D S F) (v : Variant) (hit : F → F → Bool) (cfg : Cfg)
+    (hs : Sound v cfg hit) (hr : v.resetNsgrad = true) (ops : List (Op D S F)) (t : TSt D S F)
+    (st : St D S F) (r : Option (Query F)) (h : TI T cfg.parabola t st r)
+    (hinv : Inv T.W cfg.parabola st) :
+    TI T cfg.parabola (ops.foldl (tfstep T v hit cfg) t) (runSt T.W v hit cfg st ops)
+      (lastEval T.W cfg.parabola v.clearNsgOnEval r ops) := by
+  induction ops generalizing t st r with
+  | nil => exact h
+  | cons op ops ih =>
+    rw [lastEval_cons]
+    exact ih _ _ _ (tfstep_refines T v hit cfg hs.2 hr t st r op h hinv)
+      (c06_cache_valid_inv T.W v hit cfg hs st op hinv)
+
+/-- **refinement of the cascade**: carrying out every fused operation of a history as the real call
+sequence (`tdm.initialize_trial`, then the `initialize_for_new_trial` cascade; `change_shg_mgr`, new
+trial, cascade) from a freshly built object graph leaves (1) the lower layers in exactly the state
+of Model/Cache.lean, (2) `_cache_eventdata` built from the current trial data and source, and (3)
+the cached per-event ns-gradient **values** equal to those the stateless evaluator computes for the
+last successful evaluation of the current trial (none otherwise). -/
+theorem c06_top_refines (T : Top D S F) (v : Variant) (hit : F → F → Bool) (cfg : Cfg)
+    (hs : Sound v cfg hit) (hr : v.resetNsgrad = true) (d0 : D) (s0 : S) (ops : List (Op D S F)) :
+    let t := (trun T v hit cfg (tfresh d0 s0) (expandAll d0 ops)).1
+    t.base = runSt T.W v hit cfg (fresh d0 s0) ops ∧ Synced t ∧
+    t.nsgrad = (lastEval T.W cfg.parabola v.clearNsgOnEval none ops).map
+      (nsgradPure T cfg.parabola (lastData d0 ops) (lastSrc s0 ops)) := by
+  intro t
+  have h0 : TI T cfg.parabola (tfresh d0 s0) (fresh d0 s0) none := ⟨rfl, rfl, rfl⟩
+  have h := C06.top_run T v hit cfg hs hr ops _ _ none h0 (inv_fresh T.W cfg.parabola d0 s0)
+  have ht : t = ops.foldl (tfstep T v hit cfg) (tfresh d0 s0) :=
+    trun_expandAll T v hit cfg ops (tfresh d0 s0)
+  have hds := c06_current_data_src T.W v hit cfg ops (fresh d0 s0 : St D S F)
+  rw [ht]
+  refine ⟨h.base, h.sync, ?_⟩
+  rw [h.nsg, hds.1, hds.2]
+  rfl
+
+/-- **transparency at the top**: after any history (as real call sequences) an evaluation returns the
+log-lambda, its ns-gradient and the per-(source, event) ratios and gradients of the stateless
+top-level evaluator on the current data and source, and raises exactly when it raises. -/
+theorem c06_top_transparent (T : Top D S F) (v : Variant) (hit : F → F → Bool) (cfg : Cfg)
+    (hs : Sound v cfg hit) (hr : v.resetNsgrad = true) (d0 : D) (s0 : S) (ops : List (Op D S F))
+    (q : Query F) :
+    let t := (trun T v hit cfg (tfresh d0 s0) (expandAll d0 ops)).1
+    match topPure T cfg.parabola (lastData d0 ops) (lastSrc s0 ops) q with
+    | some p => ∃ o, (tstep T v hit cfg t (.evaluate q)).2 = .vals o ∧ o.llh = p.1.llh ∧
+        o.gradNs = p.1.gradNs ∧ o.out.ratio = p.1.out.ratio ∧ o.out.grad = p.1.out.grad
+    | none => (tstep T v hit cfg t (.evaluate q)).2 = .evalError := by
+  intro t
+  obtain ⟨hb, hsy, -⟩ := c06_top_refines T v hit cfg hs hr d0 s0 ops
+  change t.base = _ at hb
+  change Synced t at hsy
+  clear_value t
+  have hinv := c06_cache_valid_inv_run T.W v hit cfg hs ops _ (inv_fresh T.W cfg.parabola d0 s0)
+  have hds := c06_current_data_src T.W v hit cfg ops (fresh d0 s0 : St D S F)
+  have hsy' : t.evd = some (t.base.data, t.base.src) := hsy
+  rw [← hb] at hinv hds
+  simp only [fresh] at hds
+  by_cases hq : queryOk T.W cfg.parabola q = true
+  · have hc := evalCσ_synced T.W hit cfg t.base q
+    have hsp := (evalC_spec T.W hit hs.2 cfg t.base q hinv).1
+    have h1 : (evalC T.W hit cfg t.base q).2.ratio = (evalPure T.W cfg.parabola t.base.data t.base.src q).1 :=
+      congrArg Prod.fst hsp
+    have h2 : (evalC T.W hit cfg t.base q).2.grad = (evalPure T.W cfg.parabola t.base.data t.base.src q).2 :=
+      congrArg Prod.snd hsp
+    simp only [topPure, hq, if_true, ← hds.1, ← hds.2]
+    refine ⟨⟨(derive T t.base.data t.base.src q (evalC T.W hit cfg t.base q).2.ratio).llh,
+      (derive T t.base.data t.base.src q (evalC T.W hit cfg t.base q).2.ratio).gradNs,
+      (evalC T.W hit cfg t.base q).2⟩, by simp only [tstep, hsy', hq, if_true, hc], ?_, ?_, ?_, ?_⟩ <;>
+      simp only [h1, h2]
+  · have hq' : queryOk T.W cfg.parabola q = false := by simpa using hq
+    simp only [topPure, hq', tstep, hsy']
+    simp
+
+/-- **the second-derivative number**: after any history `calculate_ns_grad2(ns)` returns
+`-Σ nsgrad_i² - (N - N')/(N - ns)²` with the per-event gradients of the last successful evaluation of
+the current trial and `N`, `N'` of the current trial — the number a freshly built object graph
+returns after replaying only that evaluation — and is refused when there is no such evaluation. -/
+theorem c06_top_grad2_number (T : Top D S F) (v : Variant) (hit : F → F → Bool) (cfg : Cfg)
+    (hs : Sound v cfg hit) (hr : v.resetNsgrad = true) (d0 : D) (s0 : S) (ops : List (Op D S F))
+    (ns : F) :
+    let t := (trun T v hit cfg (tfresh d0 s0) (expandAll d0 ops)).1
+    (tstep T v hit cfg t (.grad2 ns)).2 =
+      match lastEval T.W cfg.parabola v.clearNsgOnEval none ops with
+      | some q => .grad2 (grad2Of T (lastData d0 ops) (lastSrc s0 ops)
+          (nsgradPure T cfg.parabola (lastData d0 ops) (lastSrc s0 ops) q) ns)
+      | none => .refused := by
+  intro t
+  obtain ⟨hb, -, hn⟩ := c06_top_refines T v hit cfg hs hr d0 s0 ops
+  change t.base = _ at hb
+  change t.nsgrad = _ at hn
+  clear_value t
+  have hds := c06_current_data_src T.W v hit cfg ops (fresh d0 s0 : St D S F)
+  rw [← hb] at hds
+  simp only [fresh] at hds
+  simp only [tstep, hn]
+  cases lastEval T.W cfg.parabola v.clearNsgOnEval none ops with
+  | none => rfl
+  | some q => simp only [Option.map_some, hds.1, hds.2]
+
+/-- a freshly built object graph is in sync, and every cascade re-establishes it -/
+theorem c06_top_cascade_syncs (T : Top D S F) (v : Variant) (hit : F → F → Bool) (cfg : Cfg)
+    (t : TSt D S F) (d : D) (s : S) :
+    Synced (tfresh d s : TSt D S F) ∧ Synced (tstep T v hit cfg t .llhInit).1 :=
+  ⟨rfl, rfl⟩
+
+end top
+
 /-! ### the current source satisfies the hypotheses -/
 
 theorem c06_datafield_reset_for_current_source : Gen.C06.resetFields = true := by
@@ -440,6 +556,35 @@ theorem c06_trace_for_current_source {D S : Type} (W : World D S F) (cfg : Cfg) 
     (run W Gen.C06.variant (hitOf Gen.C06.variant cfg) cfg (fresh d0 s0) ops).2.map Res.vals =
       pureTrace W cfg.parabola d0 s0 ops :=
   c06_trace_fresh W Gen.C06.variant _ cfg (c06_sound_for_current_source cfg) d0 s0 ops
+
+/-- the upper layers for the code as it is now: log-lambda, ns-gradient, ratios after any history of
+complete call sequences equal the stateless top-level evaluator -/
+theorem c06_top_transparent_for_current_source {D S : Type} [Neg F] [OfNat F 0] [OfNat F 1] [Transc F]
+    (T : Top D S F) (cfg : Cfg) (d0 : D) (s0 : S) (ops : List (Op D S F)) (q : Query F) :
+    let hit : F → F → Bool := hitOf Gen.C06.variant cfg
+    let t := (trun T Gen.C06.variant hit cfg (tfresh d0 s0) (expandAll d0 ops)).1
+    match topPure T cfg.parabola (lastData d0 ops) (lastSrc s0 ops) q with
+    | some p => ∃ o, (tstep T Gen.C06.variant hit cfg t (.evaluate q)).2 = .vals o ∧ o.llh = p.1.llh ∧
+        o.gradNs = p.1.gradNs ∧ o.out.ratio = p.1.out.ratio ∧ o.out.grad = p.1.out.grad
+    | none => (tstep T Gen.C06.variant hit cfg t (.evaluate q)).2 = .evalError :=
+  c06_top_transparent T Gen.C06.variant _ cfg (c06_sound_for_current_source cfg)
+    c06_reset_for_current_source d0 s0 ops q
+
+/-- the second-derivative number for the code as it is now -/
+theorem c06_top_grad2_number_for_current_source {D S : Type} [Neg F] [OfNat F 0] [OfNat F 1]
+    [Transc F] (T : Top D S F) (cfg : Cfg) (d0 : D) (s0 : S) (ops : List (Op D S F)) (ns : F) :
+    let hit : F → F → Bool := hitOf Gen.C06.variant cfg
+    let t := (trun T Gen.C06.variant hit cfg (tfresh d0 s0) (expandAll d0 ops)).1
+    (tstep T Gen.C06.variant hit cfg t (.grad2 ns)).2 =
+      match lastEval T.W cfg.parabola true none ops with
+      | some q => .grad2 (grad2Of T (lastData d0 ops) (lastSrc s0 ops)
+          (nsgradPure T cfg.parabola (lastData d0 ops) (lastSrc s0 ops) q) ns)
+      | none => .refused := by
+  intro hit t
+  have h := c06_top_grad2_number T Gen.C06.variant hit cfg (c06_sound_for_current_source cfg)
+    c06_reset_for_current_source d0 s0 ops ns
+  rw [c06_clear_for_current_source] at h
+  exact h
 
 /-- transparency for the code as it is now, without any hypothesis -/
 theorem c06_transparent_for_current_source {D S : Type} (W : World D S F) (cfg : Cfg) (d0 : D)
@@ -548,6 +693,32 @@ theorem c06_failed_evaluate_counterexample :
       = [none, none, some 0] ∧
     (run C06.W2 v (· == ·) cfg (fresh 0 0) [.evaluate bad, .grad2]).2.map C06.isError
       = [false, true] := by decide
+
+/-- dummy transcendental functions on `Int` (the witnesses below only look at PDF ratios) -/
+local instance : Transc Int := ⟨id, id, id, id, id, id, id, id, 0, Int.ofNat, id⟩
+
+def C06.T0 : Top Nat Nat Int := { W := C06.W0, nEvents := fun _ => 10, ak := fun _ _ => [1], opa := 1 }
+
+def C06.ratioOfRes : TRes Int → Option (List (List Int))
+  | .vals o => some o.out.ratio
+  | _ => none
+
+/-- **why the documented call order matters** (repaired code, state id advancing): new trial data
+handed to the trial data manager without running the `initialize_for_new_trial` cascade — the signal
+PDFs still evaluate the event data of the previous trial (`_cache_eventdata`); and running the
+cascade *afterwards* does not repair it, because the stale values were cached under the new state id.
+Hence `c06_top_transparent` is stated for histories of complete call sequences (`expandAll`). -/
+theorem c06_top_cascade_needed_counterexample :
+    let v : Variant := ⟨true, true, true, true⟩
+    let cfg : Cfg := ⟨false, false, false, true, false⟩
+    let q : Query Int := ⟨2, [0], [0]⟩
+    (trun C06.T0 v (· == ·) cfg (tfresh 0 0) [.evaluate q, .tdmInit 1, .evaluate q]).2.map C06.ratioOfRes
+      = [some [[0]], none, some [[0]]] ∧
+    (trun C06.T0 v (· == ·) cfg (tfresh 0 0) [.tdmInit 1, .evaluate q, .llhInit, .evaluate q]).2.map
+      C06.ratioOfRes = [none, some [[0]], none, some [[0]]] ∧
+    (trun C06.T0 v (· == ·) cfg (tfresh 0 0) [.tdmInit 1, .llhInit, .evaluate q]).2.map C06.ratioOfRes
+      = [none, none, some [[1]]] ∧
+    (evalPure C06.W0 false 1 0 q).1 = [[1]] := by decide
 
 end counterexamples
 
